@@ -2,7 +2,8 @@
 # usage: run.sh <ID> <quick|thorough> [extra args]   |   run.sh <ID> replay <file>
 # Rebuilds the check binary against /repo's current working tree, then runs it.
 set -u
-cd /verif
+cd "$(dirname "$(readlink -f "$0")")"
+export VERIF_ROOT="$(pwd)"
 export GOFLAGS=-mod=mod GOPROXY=off GOSUMDB=off GOTOOLCHAIN=local GOCACHE=/verif/.gocache CGO_ENABLED=0 GOGC=400
 id="$1"; mode="${2:-quick}"; shift; shift || true
 lc=$(echo "$id" | tr 'A-Z' 'a-z')
